@@ -86,6 +86,10 @@ func (core *JApiCore) findPasteRecursion(
 			}
 		}
 		delete(inProgress, name)
+		// The macro leads to no recursion: it is not walked again when it is
+		// pasted from another place (a chain of macros each of which pastes the
+		// next one twice would be walked 2^n times).
+		done[name] = struct{}{}
 		return nil
 	}
 	for _, c := range d.Children {
